@@ -694,11 +694,40 @@ def register_all(M):
         elif isinstance(a, Agg) and a.kind == "adt:Rank":
             f = it.p.find_trait_fn("Rank", "PartialEq", "eq")
             r = it.call_function(f, [args[0], args[1]])
+        elif isinstance(a, Agg) and isinstance(b, Agg) and a.kind in ("adt:Option", "tuple") and a.kind == b.kind:
+            r = struct_eq(a, b)
+        elif not isinstance(a, Agg) and not isinstance(b, Agg) and (isinstance(a, (int, bool)) or is_sym(a)):
+            r = char_eq(a, b) if not (isinstance(a, bool) or (is_sym(a) and z3.is_bool(a))) else simp(to_z(a) == to_z(b))
         else:
             raise Unsupported("PartialEq on %r (%s)" % (a, callee))
         if neg:
             return (not r) if isinstance(r, bool) else simp(z3.Not(r))
         return r
+
+    def struct_eq(a, b):
+        """Derived PartialEq on Option / tuples of scalars and strings."""
+        if a.variant != b.variant or len(a.fields) != len(b.fields):
+            return False
+        conds = []
+        for x, y in zip(a.fields, b.fields):
+            x, y = deref(x), deref(y)
+            if isinstance(x, Agg) and isinstance(y, Agg):
+                e = struct_eq(x, y)
+            elif isinstance(x, (Str, SString)):
+                e = str_eq(elems_of(x), elems_of(y))
+            elif isinstance(x, bool) or (is_sym(x) and z3.is_bool(x)):
+                e = simp(to_z(x) == to_z(y))
+            elif isinstance(x, int) or is_sym(x):
+                e = char_eq(x, y) if (not is_sym(x) or x.size() == 32) and (not is_sym(y) or y.size() == 32) else simp(x == y)
+            else:
+                raise Unsupported("PartialEq on field %r" % (x,))
+            if e is False:
+                return False
+            if e is not True:
+                conds.append(e)
+        if not conds:
+            return True
+        return simp(z3.And(conds))
 
     @reg("Ord::cmp")
     def m_cmp(it, args, callee):
